@@ -47,6 +47,8 @@ def split_top(s, sep=','):
 _ALIASES = {'Point3': 'OPoint', 'Point2': 'OPoint', 'Point': 'OPoint', 'UnitVec3': 'Unit', 'UnitVec2': 'Unit', 'Vector3': 'Matrix', 'Vector2': 'Matrix', 'SVector': 'Matrix',
             'SurfacePoint3': 'SurfacePoint', 'SurfacePoint2': 'SurfacePoint', 'Iso3': 'Isometry', 'Iso2': 'Isometry'}
 
+_REV_ALIASES = {'Isometry': ['Iso3', 'Iso2'], 'OPoint': ['Point3', 'Point2'], 'Unit': ['UnitVec3', 'UnitVec2'], 'Matrix': ['Vector3', 'Vector2'], 'SurfacePoint': ['SurfacePoint3', 'SurfacePoint2']}
+
 
 class MirFn:
     def __init__(self, name, sig, ret, body, line):
@@ -264,6 +266,17 @@ class Mir:
                 sb = sb.split('::')[-1]
             tb = strip_generics(m.group(2)).strip().split('::')[-1]
             r = self.defs.get((sb, m.group(3)))
+            if not r and sb in _REV_ALIASES:
+                # impls written against the crate's type aliases (impl .. for &Iso3): pick the alias of the right dimension
+                dm = re.search(r'Const<(\d)>', selft) or re.search(r',\s*(\d)>\s*$', selft.strip())
+                dim = dm.group(1) if dm else ''
+                for al in _REV_ALIASES[sb]:
+                    if al.endswith(dim) and self.defs.get((al, m.group(3))):
+                        # strict: nalgebra's own impls for the same type (Isometry * Point ..) stay external
+                        strict = [x for x in self.defs.get((al, m.group(3))) if x[1] == tb and ('<' not in m.group(2) or self._impl_matches(x, m.group(2), m.group(1)))]
+                        if strict:
+                            return self.fns[strict[0][0]]
+                        break
             if r:
                 hit = [x for x in r if x[1] == tb]
                 if len(hit) > 1:
@@ -315,7 +328,7 @@ class Mir:
             return False
         h = self.impl_header(m.group(1), int(m.group(2)))
         want = re.sub(r'\s+', '', strip_generics(re.sub(r'^[^<]*<', '', trait_args, count=1)).split(',')[0]).replace("'_", '').split('::')[-1]
-        hm = re.search(r'impl\s*(?:<[^>]*>)?\s+\w+<([^,>]*)', h)
+        hm = re.search(r'impl\s*(?:<[^>]*>)?\s+[\w:]+<([^,>]*)', h)
         if not hm:
             return False
         have = re.sub(r'\s+', '', hm.group(1)).replace("'_", '').split('::')[-1]
@@ -330,7 +343,7 @@ class Mir:
             return t
         full_want = re.sub(r'^[^<]*<', '', trait_args, count=1)
         full_want = full_want[:full_want.rfind('>')] if full_want.rstrip().endswith('>') else full_want
-        hm2 = re.search(r'impl\s*(?:<[^>]*>)?\s+\w+<(.*)>\s+for\s', h)
+        hm2 = re.search(r'impl\s*(?:<[^>]*>)?\s+[\w:]+<(.*)>\s+for\s', h)
         if hm2 and norm(hm2.group(1)) == norm(full_want):
             return True
         return False
